@@ -34,7 +34,7 @@ structure AccFacts (d : Doc) : Prop where
   groupIn : ∀ g ∈ d.body.groupByL, g ∈ d.cols
   groupKept : ∀ g ∈ d.body.groupByL, g ∉ removedNames d.body
   headers : ∀ h, some h ∈ d.headers → TblAttrsOf.zipAll accAttr tblSpec h.attrs = true ∧
-    ∀ w, h.colRelWidth = some w → w ≠ [] ∧ Proofs.Widths.AllPos w
+    ∀ w, h.colRelWidth = some w → Proofs.Widths.AllPos w
   pageHeader : ∀ c, d.pageHeader = some c → TextAttrsOf.zipAll accAttr textSpec c.attrs = true
   pageFooter : ∀ c, d.pageFooter = some c → TextAttrsOf.zipAll accAttr textSpec c.attrs = true
   title : ∀ c, d.title = some c → TextAttrsOf.zipAll accAttr textSpec c.attrs = true
@@ -55,6 +55,12 @@ theorem widthsAcc_spec {o : Option (List Rat)} (h : widthsAcc o = true) :
   subst hw
   simp only [widthsAcc, Bool.and_eq_true, Bool.not_eq_true', List.isEmpty_eq_false_iff] at h
   exact ⟨h.1, allPos_of_posW h.2⟩
+
+theorem widthsPos_spec {o : Option (List Rat)} (h : widthsPos o = true) :
+    ∀ w, o = some w → Proofs.Widths.AllPos w := by
+  intro w hw
+  subst hw
+  exact allPos_of_posW h
 
 theorem textCompAcc_spec {o : Option TextComp} (h : textCompAcc o = true) :
     ∀ c, o = some c → TextAttrsOf.zipAll accAttr textSpec c.attrs = true := by
@@ -91,7 +97,7 @@ theorem accFacts {d : Doc} (h : Accepted d) : AccFacts d := by
   · intro hd hmem
     have := List.all_eq_true.mp hheaders (some hd) hmem
     simp only [headerAcc, Bool.and_eq_true] at this
-    exact ⟨this.1, widthsAcc_spec this.2⟩
+    exact ⟨this.1, widthsPos_spec this.2⟩
 
 structure ShapeFacts (d : Doc) (removed : List Nat) : Prop where
   hrem : removedIdx d = .ok removed
